@@ -15,6 +15,12 @@ loggers built by the real ServerOptions.make_logger() in every configuration, re
 dispatchers over real pipes, the real clearLog / clearProcessLogs / clearAllProcessLogs RPC methods, SIGUSR2
 through the real signal receiver and Supervisor.handle_signal(); one monitor per log; the same histories
 through Model/LogFan.lean, which interprets the loop bodies regenerated from the source.
+
+The bounds themselves ("for every maxbytes and backups") are exercised from where an operator states them: a configuration
+file and a command line parsed by the real ServerOptions.realize(); one monitor compares the parameters of the handler that
+writes to each configured path with the configured values (kinds configured-maxbytes0-but-log-will-rotate,
+configured-maxbytes-not-in-effect, configured-backups-not-in-effect), the history monitors judge the behaviour against the
+configured values.  Every clear / reopen operation also comes in every mood of the daemon (RUNNING / RESTARTING / SHUTDOWN).
 """
 import io, os, re, sys, tempfile
 from framework import Infra
@@ -38,6 +44,19 @@ TRUSTED.append(
     "(_getGroupAndProcess, _getAllProcesses: monitors only), the text of the 'received SIGUSR2' message (taken from the "
     "observation), SyslogHandler; LogRecord's clock is frozen (supervisor.loggers.time) so that activity-log lines are "
     "reproducible")
+TRUSTED.append(
+    "from the configured text to the handler: command line vs file priority (Options._set and the priorities passed to it), the "
+    "'Process defaults' test of Options.process_config, the defaults of add() / read_config / processes_from_section, the "
+    "rotating / maxbytes / backups arguments of the three handle_file() calls and the constructor arguments inside handle_file are "
+    "regenerated and composed by the model (actCfg / chanCfg); not modelled: the parsing of the text itself (byte_size suffixes, "
+    "integer(), getopt) -- the worlds write sizes with and without KB / MB / GB units and the monitors compare the handler's "
+    "maxBytes / backupCount and its behaviour with what the documentation says the text means; environment variables "
+    "(no option of the activity log has one); negative values")
+TRUSTED.append(
+    "the daemon's mood: Supervisor.handle_signal specialised to SIGUSR2 and rpcinterface._update are regenerated per mood "
+    "(every `if` on the signal or the mood replaced by the branch taken); which mood SIGTERM / SIGINT / SIGQUIT / SIGHUP / "
+    "shutdown() / restart() lead to is observed (Supervisor.get_state()), not modelled; a clear RPC answered with SHUTDOWN_STATE "
+    "while the daemon is not RUNNING counts as refused (it must then leave every log untouched), SIGUSR2 is never refused")
 ASSUMPTIONS = [
     "one handler per log file (supervisor never opens two handlers on the same path)",
     "external actors only unlink or atomically replace whole files between two handler operations",
@@ -52,7 +71,18 @@ RULE = ("cases = (rotating?, maxbytes, backups, op sequence); maxbytes in {0,1,2
         "rotating, absent, stderr redirected), histories of activity messages, child output, clearLog, clearProcessLogs, "
         "clearAllProcessLogs, SIGUSR2, ServerOptions.reopenlogs and external removal / replacement of any log, every clear / reopen "
         "followed by further writes to every affected log; corpus: every make_logger configuration x (clearLog | SIGUSR2 | "
-        "reopenlogs after the file was moved away) followed by five messages")
+        "reopenlogs after the file was moved away) followed by five messages; "
+        "two more dimensions of every world: (a) where the bounds come from: attributes set on the options object, or a configuration "
+        "file and command line written by the harness and parsed by the real ServerOptions.realize() ([supervisord] logfile_maxbytes / "
+        "logfile_backups, -y / -z / --logfile_maxbytes= / --logfile_backups= overriding a file that says something else, [program:x] / "
+        "[eventlistener:x] stdout_/stderr_logfile_maxbytes / _backups; values 0, 1, small, 1KB, 50MB, 2GB, 1000 backups, or not written at "
+        "all = the documented default; sizes with and without units), groups made by Supervisor.add_process_group() from the parsed "
+        "process_group_configs, start-up messages replayed by make_logger() observed like any message; (b) the daemon's mood: in half "
+        "of the worlds SIGTERM / SIGINT / SIGQUIT / SIGHUP (real handle_signal) or shutdown() / restart() arrives in the first half of the "
+        "history, possibly a second one later, and every other operation goes on in that mood; corpus: every make_logger configuration "
+        "from a file / command line with explicit zeros, 1, defaults and huge values x 12 messages, clearLog, SIGUSR2; children's logs "
+        "from sections with zeros and unset values; logs moved away + SIGUSR2 + output on every log in every mood reached through every "
+        "signal / RPC (and two in a row), from attributes and from a configuration file")
 
 FMT_TEXT = '%(levelname)s %(message)s\n'
 
@@ -470,39 +500,87 @@ class WorldRunner:
     def one(self, w, ops, monitor=True):
         from props import c19_world as W
         ctx = self.ctx
-        sizes = [w['backups']] + [c[1] for g in w['groups'] for p in g for c in (p['out'], p['err']) if isinstance(c, list)]
-        show = max(sizes) + 2
+        conf = w.get('via', 'attr') == 'conf'
+        chans = [c for g in w['groups'] for p in g for c in (p['out'], p['err']) if isinstance(c, list)]
+        sizes = [(W.expected_act(w) if conf else [w['maxbytes'], w['backups']])[1]] + [(W.expected_chan(c) if conf else c)[1] for c in chans]
         world = W.World(os.path.join(tempfile.mkdtemp(dir=ctx.scratch), 'd'), w)
+        # the window of name indices shown in the canonical lines: past the configured and past the handlers' own bounds
+        sizes += [bk for hs in world.handler_params().values() for _, bk in hs if isinstance(bk, int)]
+        show = max(sizes) + 2
         logids = list(world.dirs)
-        state = {'k': 0}
+        state = {'k': -1}
         def reporter(lid):
             def report(kind, what):
                 k = state['k']
-                ctx.violation(kind, '%s log: %s (after world op %d: %s)' % (
-                    'activity' if lid == 'act' else 'child %s' % lid, what, k, ' '.join(str(x) for x in W.op_json(ops[k]))),
-                    {'world': w, 'ops': [W.op_json(o) for o in ops[:k + 1]]})
+                where = 'at start-up' if k < 0 else 'after world op %d: %s' % (k, ' '.join(str(x) for x in W.op_json(ops[k])))
+                ctx.violation(kind, '%s log: %s (%s)' % ('activity' if lid == 'act' else 'child %s' % lid, what, where),
+                              {'world': w, 'ops': [W.op_json(o) for o in ops[:k + 1]]})
             return report
         mons = {lid: Monitor(ctx, world.cfgs[lid], None, report=reporter(lid)) for lid in logids}
         model_ops, lines = [], []
+        def writes(evs, k, cov=(), kind=''):
+            """the messages / chunks handed to the loggers during one operation -> model ops, lines, monitor steps"""
+            inop, written = {}, set()
+            for lid, data, snap in evs:
+                if not data:
+                    continue
+                if lid == 'act':
+                    model_ops.append('log ' + hexs(data))
+                else:
+                    g, p_, ch = lid.split('.')
+                    model_ops.append('chunk %s %s %s %s' % (g, p_, ch, hexs(data)))
+                lines.append(W.canon_world(world, snap, show, 'ok'))
+                if monitor:
+                    ls, other = snap[lid]
+                    mons[lid].step(k, ('write', data), ls, other, 'ok')
+                    inop[lid] = inop.get(lid, b'') + data
+                    written.add(lid)
+                    if lid in cov: ctx.count('write-during-%s:%s' % (kind, 'activity' if lid == 'act' else 'child'))
+            return inop, written
         try:
+            # ---- the configured bounds are the bounds in effect: the handler that writes to each configured path
+            if monitor:
+                for lid, hs in world.handler_params().items():
+                    cfg = world.cfgs[lid]
+                    ctx.count('bounds:%s maxbytes=%s backups=%s' % ('act' if lid == 'act' else 'child',
+                              _klass(cfg['maxbytes']), _klass(cfg['backups'])))
+                    if len(hs) != 1:
+                        reporter(lid)('no-single-handler-at-configured-path', '%d handlers write to the configured path' % len(hs))
+                        continue
+                    mb, bk = hs[0]
+                    if cfg['maxbytes'] == 0:
+                        if mb is not None and mb > 0:
+                            reporter(lid)('configured-maxbytes0-but-log-will-rotate',
+                                          'maxbytes = 0 is configured (nothing is ever rotated or dropped) but the handler rotates at %d bytes keeping %r backups' % (mb, bk))
+                    else:
+                        if mb != cfg['maxbytes']:
+                            reporter(lid)('configured-maxbytes-not-in-effect', 'maxbytes = %d is configured, the handler rotates at %r' % (cfg['maxbytes'], mb))
+                        if bk != cfg['backups']:
+                            reporter(lid)('configured-backups-not-in-effect', 'backups = %d is configured, the handler keeps %r' % (cfg['backups'], bk))
+            # ---- what make_logger() itself logged (the parsing messages)
+            if world.boot_events:
+                ctx.count('world:start-up messages', len(world.boot_events))
+            writes(world.boot_events, -1)
+            last = world.snapshot()
             for k, o in enumerate(ops):
                 state['k'] = k
-                ctx.count('world-op:' + o[0])
+                ctx.count('world-op:' + o[0] + (':' + o[1] if o[0] in ('signal', 'rpc') else ''))
+                mood = world.mood()
                 evs, final, err, refused = world.run_op(o)
                 cov = {} if refused else W.covered(w, logids, o)
-                if refused: ctx.count('world-op:clearlog-refused-NO_FILE')
-                # ---- model operations and the implementation's line for each
                 kind = o[0]
+                if kind in ('clearlog', 'optreopen', 'sigusr2', 'clearproc', 'clearall'):
+                    ctx.count('mood:%s %s%s' % (mood, kind, ' refused' if refused else ''))
+                if refused: ctx.count('world-op:%s-refused' % kind)
+                # ---- model operations and the implementation's line for each
                 if kind in ('log', 'chunk'):
-                    for lid, data, snap in evs:
-                        if lid == 'act':
-                            if data:
-                                model_ops.append('log ' + hexs(data)); lines.append(W.canon_world(world, snap, show, 'ok'))
-                        else:
-                            g, p_, ch = lid.split('.')
-                            model_ops.append('chunk %s %s %s %s' % (g, p_, ch, hexs(data))); lines.append(W.canon_world(world, snap, show, 'ok'))
+                    inop, written = writes(evs, k)
                     if err != 'ok' and lines:
                         lines[-1] += ' !' + err
+                elif kind in ('signal', 'rpc'):
+                    inop, written = writes(evs, k)
+                    model_ops.append('setmood %s -' % world.mood())
+                    lines.append(W.canon_world(world, final, show, err))
                 else:
                     if kind == 'sigusr2':
                         first = next((d for lid, d, _ in evs if lid == 'act'), b'')
@@ -517,22 +595,28 @@ class WorldRunner:
                         model_ops.append(kind)
                     lines.append(W.canon_world(world, final, show, err))
                 if not monitor:
+                    last = final
                     continue
                 # ---- monitors, per log, in the property's terms
                 if err != 'ok':
                     reporter('act')('exception-escaped-log-operation', 'the operation raised, answered a fault or swallowed an exception: ' + err)
+                if refused and final != last:
+                    reporter('act')('refused-operation-touched-a-log', 'the operation was refused (%s) but a log changed' % mood)
+                if kind == 'sigusr2' and refused:
+                    reporter('act')('reopen-request-refused', 'SIGUSR2 was refused')
                 for lid in cov:
                     if cov[lid] == 'clear':
                         mons[lid].begin_clear()
-                inop, written = {}, set()
-                for lid, data, snap in evs:
-                    if not data:
-                        continue
-                    ls, other = snap[lid]
-                    mons[lid].step(k, ('write', data), ls, other, 'ok')
-                    inop[lid] = inop.get(lid, b'') + data
-                    written.add(lid)
-                    if lid in cov: ctx.count('write-during-%s:%s' % (kind, 'activity' if lid == 'act' else 'child'))
+                if kind not in ('log', 'chunk', 'signal', 'rpc'):
+                    inop, written = {}, set()
+                    for lid, data, snap in evs:
+                        if not data:
+                            continue
+                        ls, other = snap[lid]
+                        mons[lid].step(k, ('write', data), ls, other, 'ok')
+                        inop[lid] = inop.get(lid, b'') + data
+                        written.add(lid)
+                        if lid in cov: ctx.count('write-during-%s:%s' % (kind, 'activity' if lid == 'act' else 'child'))
                 for lid in logids:
                     ls, other = final[lid]
                     if lid in cov:
@@ -541,11 +625,14 @@ class WorldRunner:
                         mons[lid].step(k, (kind,) + tuple(o[2:]), ls, other, 'ok')
                     elif lid not in written:
                         mons[lid].step(k, ('noop',), ls, other, 'ok')
+                last = final
         finally:
             world.close()
+        ctx.count('world:via=%s%s' % (w.get('via', 'attr'), '+cli' if w.get('cli') else ''))
         ctx.count('world:%s%s' % ('nodaemon' if w['nodaemon'] else 'daemon', '+silent' if w['silent'] else ''))
         ctx.count('world:handlers=%d' % (1 + (1 if w['nodaemon'] and not w['silent'] else 0) + (0 if w.get('extra', 'none') == 'none' else 1)))
-        ctx.count('world:act-log %s' % ('plain' if not w['maxbytes'] else 'rotating backups=0' if not w['backups'] else 'rotating'))
+        amb, abk = world.cfgs['act']['maxbytes'], world.cfgs['act']['backups']
+        ctx.count('world:act-log %s' % ('plain' if not amb else 'rotating backups=0' if not abk else 'rotating'))
         ctx.count('world:level=' + w['level'])
         ctx.count('world:processes=%d' % sum(len(g) for g in w['groups']))
         ctx.case_done(('world', repr(w), [W.op_json(o) for o in ops]), True)
@@ -554,30 +641,64 @@ class WorldRunner:
         return lines
 
 
+def _klass(v):
+    return '0' if v == 0 else '1' if v == 1 else 'default' if v in (10, 50 * 1024 * 1024) else 'huge' if v >= 1000 else 'small'
+
+
+MOOD_OPS = [('signal', 'TERM'), ('signal', 'INT'), ('signal', 'QUIT'), ('signal', 'HUP'), ('rpc', 'shutdown'), ('rpc', 'restart')]
+MB50, GB2 = 50 * 1024 * 1024, 2 * 1024 * 1024 * 1024
+
+
 def gen_world(rng):
     """a world and an operation history; after every clear / reopen kind of operation the affected logs are written again"""
+    from props import c19_world as W
+    conf = rng.random() < 0.5
     w = {'nodaemon': rng.random() < 0.6, 'silent': rng.random() < 0.25,
          'maxbytes': rng.choice([0, 0, 60, 100, 100, 150, 400, 50 * 1024 * 1024]), 'backups': rng.choice([0, 0, 1, 2, 10]),
          'level': 'DEBG' if rng.random() < 0.25 else 'INFO', 'extra': rng.choice(['none'] * 8 + ['front', 'back']), 'groups': []}
+    if conf:
+        # the bounds as an operator writes them: boundary values (0, 1, not written = the documented default, huge), in the
+        # file and / or on the command line (which wins), sizes with and without a unit
+        vals_mb = [None, 0, 0, 0, 1, 60, 100, 150, 400, 1024, MB50, GB2]
+        vals_bk = [None, 0, 0, 0, 1, 2, 10, 1000]
+        w.update(via='conf', maxbytes=rng.choice(vals_mb), backups=rng.choice(vals_bk),
+                 unit=rng.choice(['', '', 'KB', 'kb', 'MB', 'GB']), user=rng.random() < 0.2)
+        if rng.random() < 0.35:
+            cli = {}
+            if rng.random() < 0.7: cli['maxbytes'] = rng.choice(vals_mb[1:])
+            if rng.random() < 0.7 or not cli: cli['backups'] = rng.choice(vals_bk[1:])
+            w.update(cli=cli, cliform=rng.choice(['short', 'long']), cliunit=rng.choice(['', 'KB', 'mb']))
     def chan():
         r = rng.random()
         if r < 0.12: return None
+        if conf:
+            return [rng.choice([None, 0, 0, 1, 4, 8, 16]), rng.choice([None, 0, 0, 1, 2])]
         mb = rng.choice([0, 4, 8, 16])
         return [mb, rng.choice([0, 1, 2])]
     nproc = rng.choice([0, 1, 1, 2, 2, 3])
     for _ in range(nproc):
         p = {'kind': 'l' if rng.random() < 0.2 else 'p', 'out': chan(), 'err': 'x' if rng.random() < 0.25 else chan()}
+        if conf and p['kind'] == 'l':
+            # a configured event listener pool is a group of its own; redirect_stderr is not allowed there
+            if p['err'] == 'x': p['err'] = chan()
+            w['groups'].append([p]); w['groups'].append([])
+            continue
+        if conf and p['err'] == 'x' and rng.random() < 0.3:
+            p['xfile'] = True                       # a start-up warning goes through the activity log
+        if conf: p['unit'] = rng.choice(['', '', 'KB'])
         if not w['groups'] or rng.random() < 0.4:
             w['groups'].append([])
         w['groups'][-1].append(p)
+    w['groups'] = [g for g in w['groups'] if g]
     procs = [(gi, pi, p) for gi, g in enumerate(w['groups']) for pi, p in enumerate(g)]
     chans = [(gi, pi, ch) for gi, pi, p in procs for ch, key in (('o', 'out'), ('e', 'err')) if p[key] != 'x']
     logs = ['act'] + ['%d.%d.%s' % (gi, pi, ch) for gi, pi, p in procs for ch, key in (('o', 'out'), ('e', 'err')) if isinstance(p[key], list)]
     pay = Payload()
     n = [0]
+    amb = W.expected_act(w)[0] if conf else w['maxbytes']
     def msg():
         n[0] += 1
-        base = w['maxbytes'] if 0 < w['maxbytes'] < 1000 else 60
+        base = amb if 0 < amb < 1000 else 60
         pad = rng.choice([0, 0, 3, max(0, base - 33), max(0, base - 32), max(0, base - 31), base, 2 * base])
         return ('m%d' % n[0] + '.' * pad)[:max(pad, 3)]
     def chunk(c=None):
@@ -613,6 +734,12 @@ def gen_world(rng):
             ops.append(('extremove', lid, i) if rng.random() < 0.65 else ('extreplace', lid, i, bytes(rng.choice(b'XYZ') for _ in range(rng.choice([0, 3, 9])))))
             if rng.random() < 0.6:
                 ops.append((rng.choice(['sigusr2', 'sigusr2', 'optreopen', 'clearlog', 'clearall' if procs else 'sigusr2']),))
+    # the mood of the daemon is a dimension of every operation: the daemon starts to shut down / restart somewhere in
+    # the first half of the history (and possibly gets a second request later); everything else goes on
+    if rng.random() < 0.5:
+        ops.insert(rng.randrange(0, len(ops) // 2 + 1), rng.choice(MOOD_OPS))
+        if rng.random() < 0.3:
+            ops.insert(rng.randrange(len(ops) // 2, len(ops) + 1), rng.choice(MOOD_OPS))
     return w, ops
 
 
@@ -650,6 +777,52 @@ WORLD_CORPUS = [
       ('chunk', 0, 0, 'o', b'four'), ('log', 'y')]),
     # clearLog while the file is not there: the documented NO_FILE answer, nothing else happens
     (_world(False, False, 0, 0), [('log', 'a'), ('extremove', 'act', 0), ('clearlog',), ('log', 'b'), ('optreopen',), ('log', 'c')]),
+]
+
+
+def _conf(maxbytes, backups, nodaemon=False, cli=None, groups=(), **kw):
+    w = _world(nodaemon, False, maxbytes, backups, groups=groups)
+    w['via'] = 'conf'
+    if cli: w['cli'] = cli
+    w.update(kw)
+    return w
+
+
+_MSGS = [('log', 'message %02d ' % i + '.' * 100) for i in range(12)]          # 12 x ~140 bytes: past 1000, past 100, past 1
+_TWO = [[_P([0, 2], [16, 0])], [_P([8, None], 'x', )], [_P([0, 0], [None, None], 'l')]]
+_CHUNKS = [('chunk', 0, 0, 'o', bytes(range(40))), ('chunk', 0, 0, 'e', bytes(range(40, 60))), ('chunk', 1, 0, 'o', bytes(range(60, 90))),
+           ('chunk', 2, 0, 'o', bytes(range(90, 130))), ('chunk', 2, 0, 'e', b'listener stderr'),
+           ('chunk', 0, 0, 'e', bytes(range(130, 150))), ('chunk', 0, 0, 'o', bytes(range(150, 200))), ('chunk', 1, 0, 'o', bytes(range(200, 230)))]
+
+WORLD_CORPUS += [
+    # the bounds as written in a configuration file / on the command line, through the real realize() and make_logger():
+    # explicit zeros (seeded change: "Process defaults" treats a configured 0 as unset), 1, huge, not written at all
+    (_conf(mb, N, nodaemon=nd, cli=cli, **kw), _MSGS + [('clearlog',)] + _AFTER + [('sigusr2',)] + _AFTER[:2])
+    for mb, N in ((0, 3), (0, 0), (1000, 0), (100, 0), (1, 1), (1, 0), (None, None), (None, 0), (0, None), (GB2, 1000), (1024, 2))
+    for nd, cli, kw in ((False, None, {}), (True, None, {'unit': 'KB'}),
+                        (False, {'maxbytes': 0}, {}), (False, {'backups': 0}, {'cliform': 'long'}),
+                        (True, {'maxbytes': 0, 'backups': 0}, {}), (False, {'maxbytes': 200, 'backups': 1}, {'cliform': 'long'}))
+] + [
+    # children's logs configured in [program:x] / [eventlistener:x] sections: zeros, one unset value, both unset
+    (_conf(150, 1, groups=_TWO), _CHUNKS + [('clearall',)] + _CHUNKS[:5] + [('sigusr2',)] + _CHUNKS[3:]),
+    (_conf(0, 0, nodaemon=True, groups=[[_P([1, 0], [1, 1]), _P([0, None], 'x', )]]),
+     [('chunk', 0, 0, 'o', b'ab'), ('chunk', 0, 0, 'e', b'cd'), ('chunk', 0, 1, 'o', b'e' * 30), ('chunk', 0, 0, 'o', b'f'), ('chunk', 0, 0, 'e', b'g'),
+      ('clearproc', 0, 0), ('chunk', 0, 0, 'o', b'hi'), ('chunk', 0, 0, 'e', b'jk'), ('log', 'end')]),
+    # a start-up warning (redirect_stderr with a file name) written by make_logger() itself into a small rotating log
+    (_conf(100, 0, groups=[[dict(_P([4, 1], 'x'), xfile=True)]]), [('log', 'first'), ('chunk', 0, 0, 'o', b'abcde'), ('clearlog',), ('log', 'second')]),
+] + [
+    # SIGUSR2 (and the other operations) in every mood of the daemon: logrotate moves the logs away while supervisord is
+    # shutting down or restarting (seeded change: SIGUSR2 only logged while mood is SHUTDOWN)
+    (dict(_world(True, False, 150, 1, groups=[[_P([8, 1], [0, 0])], [_P([0, 0], None, 'p')]]), **via),
+     [('log', 'BEFORE'), ('chunk', 0, 0, 'o', b'before'), ('chunk', 1, 0, 'o', b'before2')] + list(moodops) +
+     [('log', 'stopping children'), ('chunk', 0, 0, 'o', b'during'),
+      ('extremove', 'act', 0), ('extremove', '0.0.o', 0), ('extremove', '1.0.o', 0), ('extremove', '0.0.e', 0), ('sigusr2',)] + _AFTER[:3] +
+     [('chunk', 0, 0, 'o', b'AFTER-out'), ('chunk', 0, 0, 'e', b'AFTER-err'), ('chunk', 1, 0, 'o', b'AFTER-2'),
+      ('clearproc', 0, 0), ('chunk', 0, 0, 'o', b'more'), ('clearlog',), ('log', 'more'), ('clearall',), ('chunk', 1, 0, 'o', b'more2'),
+      ('extremove', 'act', 0), ('optreopen',), ('log', 'end'), ('sigusr2',), ('log', 'end2'), ('chunk', 0, 0, 'o', b'end')])
+    for via in ({}, {'via': 'conf'})
+    for moodops in ([], [('signal', 'TERM')], [('signal', 'INT')], [('signal', 'QUIT')], [('signal', 'HUP')], [('rpc', 'shutdown')],
+                    [('rpc', 'restart')], [('signal', 'HUP'), ('signal', 'TERM')], [('rpc', 'shutdown'), ('signal', 'HUP')])
 ]
 
 
@@ -845,14 +1018,19 @@ TECHNIQUE = ("Lean 4 invariants by induction over operation sequences on a model
              "abstract file system whose comparisons, loop bounds, name-index arithmetic, errno tests and open modes are "
              "regenerated from loggers.py; the clear / reopen fan-out (handler lists, dispatchers, processes, groups) as an interpreter of "
              "the loop bodies regenerated from rpcinterface.py / options.py / process.py / supervisord.py / dispatchers.py, with theorems "
-             "for all handler lists and all worlds that rest on the extracted fact that the loops have no early exit; differential "
+             "for all handler lists and all worlds that rest on the extracted fact that the loops have no early exit -- in every mood of the "
+             "daemon (handle_signal partially evaluated per mood); the path from the configured maxbytes / backups to the handler parameters as a "
+             "composition of regenerated steps with theorems for every integer value; differential "
              "correspondence against the real handlers in a scratch directory and against real loggers / processes / RPC methods")
 LEVEL_TEXT = ("files_bounded, suffix_no_gap, segments_ordered (all five operation kinds), backups_full, live_short, backups0_truncates, maxbytes0_never and "
               "clear_reopen_safe are proved for every operation sequence, every maxbytes/backups and every payload; "
               "clearLog_every_file_handler_fresh / write_after_clearLog_at_path (every handler list, every configuration), "
               "clearLog_every_configuration (every make_logger configuration after any message history), "
               "reopenlogs_every_file_handler_bound, sigusr2_reaches_every_log and clearProcessLogs_reaches_every_log (every world) "
-              "are proved from the regenerated loop bodies; the model is "
+              "are proved from the regenerated loop bodies, SIGUSR2 for every mood of the daemon (sigusr2_same_in_every_mood); "
+              "configured_value_in_effect, activity_log_has_configured_bounds, child_log_has_configured_bounds, "
+              "configured_maxbytes0_never_rotates, configured_backups0_no_backup (every integer maxbytes / backups given in the file or on "
+              "the command line reaches RotatingFileHandler unchanged; 0 is not replaced by a default); the model is "
               "run against the real handlers on a regression corpus, all short write sequences around maxbytes and random "
               "interleavings with clears, reopens and external removals/replacements")
 LEVEL_NOTE = "trusts Lean's kernel, extract.py, the abstract file system (unlink/rename/open semantics); see DESIGN.md C19"
